@@ -90,8 +90,12 @@ class EnumMember:
 
     # be read-only (except during initialization)
     def __setattr__(self, key, value):
-        if key in self.__slots__ and not getattr(self, 'name', None):
-            return object.__setattr__(self, key, value)
+        if key in self.__slots__:
+            try:
+                # not getattr: a member called 'name' would be found instead of the missing attribute
+                object.__getattribute__(self, 'name')
+            except AttributeError:
+                return object.__setattr__(self, key, value)
         raise TypeError('Modifying EnumMember\'s is not allowed!')
 
     # allow access to other EnumMembers (via the Enum)
